@@ -174,7 +174,7 @@ def worker(args, scratch):
                         fs = summary_multiset(sj.get("failedAuthenticateSummary", []))
                         for ak in ambiguous_keys:
                             fs.pop(ak, None)
-                        if fs == expected_denials or time.time() - t_w > 5:
+                        if fs == expected_denials or time.time() - t_w > 20:
                             break
                         time.sleep(0.05)
                     if fs != expected_denials:
@@ -343,6 +343,57 @@ def worker(args, scratch):
     return res
 
 
+def lone_denials(args, scratch):
+    """one denial at a time, nothing else going on, while the rules lookup of every request is slow (hook H3 on the key-keeper actor: the
+    status task, here every 5 ms, publishes between the moment a request is counted and the moment its denial is recorded): each denial
+    must still end up in the published status file - there is no later request that would make the agent publish again"""
+    res = {"evaluations": 0, "nontrivial": [], "samples": [], "counts": {}, "violations": []}
+    cnt = res["counts"]
+    w = wproxy.World(scratch, runtime="multi:4", env={"GPA_VERIF_DELAY": "actor_key_keeper:1000:16000,actor_agent_status:500:4000", "GPA_VERIF_DELAY_SEED": str(args["shard"] + 5)})
+    status_dir = scratch + "/status"
+    try:
+        w.shim.call("status_task_start", dir=status_dir, interval_ms=5)
+        who = w.identity("alice", "tool", ["lone"])
+        ip, port = wproxy.DESTS["imds"]
+        key = (who.user, ip, port, who.exe, who.cmdline)
+        for mode in ("enforce", "audit"):
+            w.rules("imds", {"defaultAccess": "deny", "mode": mode, "id": "lone-" + mode, "rules": {"privileges": [], "roles": [], "identities": [], "roleAssignments": []}})
+            w.shim.call("clear_summaries")
+            for k in range(args["denials"]):
+                c = w.open("imds", who)
+                try:
+                    c.send(rawhttp.build_request("GET", "/lone/%s/%d" % (mode, k), [("x-vf-id", "c11-lone-%s-%d" % (mode, k))]))
+                    c.read_response()
+                except Exception as e:  # noqa
+                    if common.is_timeout(e):
+                        res.setdefault("inconclusive", []).append("client socket watchdog (60 s) fired; not a verdict")
+                        return res
+                c.close()
+                res["evaluations"] += 1
+                t0, seen = time.time(), None
+                while time.time() - t0 < 20:          # watchdog; the file follows within a few status rounds
+                    try:
+                        with open(os.path.join(status_dir, "status.json")) as f:
+                            seen = summary_multiset(json.load(f).get("failedAuthenticateSummary", [])).get(key, 0)
+                    except (OSError, ValueError):
+                        seen = None
+                    if seen == k + 1:
+                        break
+                    time.sleep(0.01)
+                if seen != k + 1:
+                    recorded = summary_multiset(w.shim.call("summaries")["failed"]).get(key, 0)
+                    res["violations"].append(["status-file-failed-summary-mismatch:lone-denial-%s" % mode,
+                                              {"denials_made": k + 1, "published_in_status_file": seen, "recorded_by_the_agent": recorded, "waited_s": round(time.time() - t0, 1)}])
+                    break
+            cnt["lone_denials_%s" % mode] = cnt.get("lone_denials_%s" % mode, 0) + args["denials"]
+            res["nontrivial"].append("lone-%s-%d" % (mode, args["shard"]))
+        for p in w.shim.panics():
+            res["violations"].append(["panic:%s" % p.get("location"), p])
+    finally:
+        w.close()
+    return res
+
+
 def run(tier, rep):
     wproxy.build_helper()
     rep.coverage["rule"] = ("per endpoint (WireServer, HostGAPlugin, IMDS): generated rule sets; one request/caller sequence (few distinct requests repeated many times, 5 real caller processes, 8 concurrent "
@@ -354,6 +405,8 @@ def run(tier, rep):
     args = [{"shard": i, "tier": tier, "endpoint": eps[i % 3], "rulesets": 3 if tier == "quick" else 25, "requests": 240 if tier == "quick" else 1500,
              "distinct": 10, "threads": 8, "burst": 400 if tier == "quick" else 1200} for i in range(shards)]
     for res in sandbox.run_many("vf.props.c11", "worker", args, workers=shards, timeout=1800 if tier == "quick" else 10800):
+        rep.merge_worker(res)
+    for res in sandbox.run_many("vf.props.c11", "lone_denials", [{"shard": i, "tier": tier, "denials": 25 if tier == "quick" else 200} for i in range(2 if tier == "quick" else 6)], workers=6, timeout=900 if tier == "quick" else 5400):
         rep.merge_worker(res)
     rep.assumptions += ["refusals of non-elevated WireServer/HostGAPlugin callers are denials too and are counted likewise (in every mode)",
                         "421 entries (unattributed connections) are kept apart from the 403 multiset"]
